@@ -243,10 +243,10 @@ Proof.
 Qed.
 
 (* onLCPDown establishes the invariant from (almost) nothing *)
-Lemma on_lcp_down_T : forall rfc td hl sf i acc,
-  T (fun s mn => acc = false -> alloc_pool s = false /\ cur4 s = ANone /\ v6 s = v60) (on_lcp_down (mkV5 true rfc td hl sf) i) (Inv acc).
+Lemma on_lcp_down_T : forall rfc td hl sf nm i acc,
+  T (fun s mn => acc = false -> alloc_pool s = false /\ cur4 s = ANone /\ v6 s = v60) (on_lcp_down (mkVr true rfc td hl sf nm) i) (Inv acc).
 Proof.
-  intros rfc td hl sf i acc mn0 m H. unfold on_lcp_down. cbn [vrep].
+  intros rfc td hl sf nm i acc mn0 m H. unfold on_lcp_down. cbn [vrep].
   set (m0 := upd (set_pend None PtNone) m).
   set (m1 := ncp_apply i Ipcp fsm_down m0).
   set (m2 := ncp_apply i Ip6cp fsm_down m1).
@@ -495,7 +495,7 @@ Proof.
   destruct (alloc6 pdf m) as [[k m2]|] eqn:E; auto. cbn [fst].
   apply W_on_fam_Rn. eapply alloc6_Rn; eauto.
 Qed.
-Lemma Rn_reserve6 : forall pe s mn pdf named, Rn pe s mn -> Rn pe (reserve6 pdf named s) mn.
+Lemma Rn_reserve6 : forall pe s mn keep pdf named, Rn pe s mn -> Rn pe (reserve6 keep pdf named s) mn.
 Proof. intros. unfold reserve6. apply Rn_on_fam; auto. Qed.
 Lemma W_set_Rn : forall pe mn0 m s', (forall mn, Rn pe (ms m) mn -> Rn pe s' mn) ->
   W (Rn pe) mn0 m -> W (Rn pe) mn0 (upd (fun _ => s') m).
@@ -503,14 +503,14 @@ Proof. intros pe mn0 m s' K H. eapply W_upd; [exact H|]. exact K. Qed.
 Ltac rn_emits :=
   repeat first [ apply W_emit_svc; [reflexivity | (let K := fresh in intros ? K; apply K) |]
                | apply W_emit_plain; [reflexivity|] ].
-Lemma dh6_Rn : forall pe req, T (Rn pe) (dh6 req) (Rn pe).
+Lemma dh6_Rn : forall pe keep req, T (Rn pe) (dh6 keep req) (Rn pe).
 Proof.
-  intros pe req mn0 m H. unfold dh6.
+  intros pe keep req mn0 m H. unfold dh6.
   pose proof (resolve6_Rn pe false mn0 m H) as H1.
   destruct (resolve6 false m) as [m1 n_na]. cbn [fst] in H1.
   pose proof (resolve6_Rn pe true mn0 m1 H1) as H2.
   destruct (resolve6 true m1) as [m2 n_pd]. cbn [fst] in H2. clear H H1.
-  assert (S1 : forall mn, Rn pe (ms m2) mn -> Rn pe (reserve6 true n_pd (reserve6 false n_na (ms m2))) mn)
+  assert (S1 : forall mn, Rn pe (ms m2) mn -> Rn pe (reserve6 keep true n_pd (reserve6 keep false n_na (ms m2))) mn)
     by (intros; repeat apply Rn_reserve6; auto).
   destruct (xc (na (v6 (ms m2)))), (xc (pd (v6 (ms m2)))); auto; destruct req.
   all: repeat first
@@ -563,11 +563,11 @@ Proof.
   - (* DHCPv6 SOLICIT over PPP *)
     destruct (in_net (ph (ms m))) eqn:E; auto. destruct (fs (ip6cp (ms m))); auto. destruct (ip6cp_open (ms m)); auto.
     destruct H as (mn & Hm & K). destruct (Inv_Rn _ _ _ K E) as [R Ha]. subst acc.
-    eapply W_imp; [apply (dh6_Rn None false); exists mn; split; eauto|]. intros; apply Rn_Inv; auto.
+    eapply W_imp; [apply (dh6_Rn None (vnm v) false); exists mn; split; eauto|]. intros; apply Rn_Inv; auto.
   - (* DHCPv6 REQUEST over PPP *)
     destruct (in_net (ph (ms m))) eqn:E; auto. destruct (fs (ip6cp (ms m))); auto. destruct (ip6cp_open (ms m)); auto.
     destruct H as (mn & Hm & K). destruct (Inv_Rn _ _ _ K E) as [R Ha]. subst acc.
-    eapply W_imp; [apply (dh6_Rn None true); exists mn; split; eauto|]. intros; apply Rn_Inv; auto.
+    eapply W_imp; [apply (dh6_Rn None (vnm v) true); exists mn; split; eauto|]. intros; apply Rn_Inv; auto.
 Qed.
 
 Lemma handle_timer_Inv : forall v i t acc, vrep v = true ->
